@@ -1246,3 +1246,54 @@ def _text_class(s):
         c.add("amp" if ch == "&" else "angle" if ch in "<>" else "quote" if ch in "\"'" else "ws" if ch in " \t\r\n" else
               "astral" if ord(ch) > 0xFFFF else "nonascii" if ord(ch) > 127 else "bracket" if ch in "[]" else "plain")
     return tuple(sorted(c))
+
+
+@check("C03")
+def small_tables_with_redundant_content(tier, rnd):
+    """Small record tables decoded from BINARY data that is legal but redundant (what real fonts
+    contain and builders would not write): VORG records equal to defaultVertOriginY, records in
+    every order of value, an empty record list; LTSH; gasp with repeated behaviours.  The model
+    decoded from the bytes is dumped (whole font, splitTables) and the import must
+    compile to what the decoded model compiles to."""
+    from fontTools.ttLib import newTable
+
+    r = Result("VORG: default in {0, 880, -120} x record sets over the font's glyphs with values in {default, default+-1, 0, extremes}; LTSH / gasp variants; x {whole, splitTables}; distinct = (table, shape, dump mode)")
+    tmp = tempfile.mkdtemp(prefix="c03small")
+    extra = {"g%d" % i: _simple_glyph([(0, 0), (0, 10 + i), (10, 10)]) for i in range(5)}
+    nglyphs = 3 + len(extra)
+
+    def cases():
+        for default in (880, 0, -120):
+            pool = [default, default + 1, default - 1, 0, 32767, -32768]
+            shapes = [[], [(1, default)], [(1, default), (2, default)], [(0, default + 1), (3, default), (5, default - 1)],
+                      [(g, default) for g in range(nglyphs)]]
+            for _ in range(3 if tier == "quick" else 40):
+                gids = sorted(rnd.sample(range(nglyphs), rnd.randint(1, nglyphs)))
+                shapes.append([(g, rnd.choice(pool)) for g in gids])
+            for recs in shapes:
+                data = struct.pack(">HHhH", 1, 0, default, len(recs)) + b"".join(struct.pack(">Hh", g, y) for g, y in recs)
+                yield "VORG", ("default-equal" if any(y == default for _, y in recs) else "plain", len(recs) > 0), data
+        for pels in ([0] * nglyphs, [1] * nglyphs, [rnd.randrange(256) for _ in range(nglyphs)], [255] + [0] * (nglyphs - 1)):
+            yield "LTSH", (len(set(pels)),), struct.pack(">HH", 0, nglyphs) + bytes(pels)
+        for ranges in ([(0xFFFF, 15)], [(8, 2), (16, 1), (0xFFFF, 3)], [(8, 1), (9, 1), (0xFFFF, 1)], [(7, 0), (0xFFFF, 0)]):
+            for ver in (0, 1):
+                yield "gasp", (len(ranges), ver), struct.pack(">HH", ver, len(ranges)) + b"".join(struct.pack(">HH", p, b) for p, b in ranges)
+
+    try:
+        for tag, shape, data in cases():
+            def make(tag=tag, data=data):
+                font = _build_ttf(dict(extra))
+                t = newTable(tag)
+                t.decompile(data, font)
+                font[tag] = t
+                return font
+            for mode, opts in (("whole", {}), ("split", {"split": "tables"})):
+                r.case((tag, shape, mode))
+                try:
+                    _roundtrip(r, "%s decoded from %s (%s dump)" % (tag, data.hex(), mode), make, tmp, only=[tag], must_compile=True, **opts)
+                except Exception as e:
+                    r.fail("%s decoded from %s (%s dump): %s: %s" % (tag, data.hex(), mode, type(e).__name__, str(e)[:200]))
+    finally:
+        shutil.rmtree(tmp, ignore_errors=True)
+    r.sample({"VORG": "0001000003700002 0001 0370 0002 0370: two records equal to the default"})
+    return r
